@@ -7,15 +7,18 @@ sys.path.insert(0, "/verif")
 from sa.normalise import body_hash
 root = os.path.join(sys.argv[1] if len(sys.argv) > 1 else "/repo", "src", "bumpver")
 out = {}
+out_sigs = {}
 for fn in sorted(os.listdir(root)):
     if not fn.endswith(".py"):
         continue
     tree = ast.parse(open(os.path.join(root, fn)).read())
     names = {}
+    sigs = {}
     def scan(stmts, prefix=""):
         for st in stmts:
             if isinstance(st, (ast.FunctionDef, ast.AsyncFunctionDef)):
                 names[prefix + st.name] = body_hash(st)
+                sigs[prefix + st.name] = [x.arg for x in st.args.posonlyargs + st.args.args + st.args.kwonlyargs]
             elif isinstance(st, ast.ClassDef):
                 names[st.name] = ""
                 scan(st.body, st.name + ".")
@@ -23,5 +26,7 @@ for fn in sorted(os.listdir(root)):
                 scan(getattr(st, "body", []), prefix); scan(getattr(st, "orelse", []), prefix)
     scan(tree.body)
     out[fn[:-3]] = names
+    out_sigs[fn[:-3]] = sigs
 json.dump(out, open("/verif/sa/baseline_functions.json", "w"), indent=1, sort_keys=True)
+json.dump(out_sigs, open("/verif/sa/baseline_signatures.json", "w"), indent=1, sort_keys=True)
 print({k: len(v) for k, v in out.items()})
